@@ -10,6 +10,7 @@ import (
 	"sort"
 	"strings"
 	"sync"
+	"sync/atomic"
 	"time"
 
 	"github.com/vicanso/pike/cache"
@@ -423,7 +424,7 @@ func init() {
 		if c.Shard == 0 && c.Want("file-watch-rapid-saves") {
 			// the file client must deliver a change notification after the LAST save of a burst
 			st := c.Stat("file-watch-rapid-saves", "enumeration")
-			st.Bounds = "bursts of 2..4 saves of the configuration file 0/20/200 ms apart with a slow (100 ms) apply callback: the content read by the last callback must be the final content"
+			st.Bounds = "bursts of 2..4 saves of the configuration file 0/20/200 ms apart with a callback that reads the file and then takes 100 ms (500 ms for the first save) to apply it: calls never overlap, and the configuration applied last is the final content"
 			dir := filepath.Join("/verif/.work", fmt.Sprintf("c16watch-%d", os.Getpid()))
 			os.MkdirAll(dir, 0o755)
 			defer os.RemoveAll(dir)
@@ -438,13 +439,27 @@ func init() {
 					}
 					var mu sync.Mutex
 					lastSeen := ""
+					var inApply, overlaps int32
 					go config.Watch(func() {
-						time.Sleep(100 * time.Millisecond) // applying a configuration takes time (health checks)
-						if cfg, err := config.Read(); err == nil && len(cfg.Caches) > 0 {
-							mu.Lock()
-							lastSeen = cfg.Caches[0].Remark
-							mu.Unlock()
+						// like main.update(): read the configuration, then apply it — which takes time (health checks), the
+						// most for the first configuration of a burst
+						if atomic.AddInt32(&inApply, 1) > 1 {
+							atomic.AddInt32(&overlaps, 1)
 						}
+						defer atomic.AddInt32(&inApply, -1)
+						cfg, err := config.Read()
+						if err != nil || len(cfg.Caches) == 0 {
+							time.Sleep(100 * time.Millisecond)
+							return
+						}
+						if strings.HasPrefix(cfg.Caches[0].Remark, "save-1-") {
+							time.Sleep(500 * time.Millisecond)
+						} else {
+							time.Sleep(100 * time.Millisecond)
+						}
+						mu.Lock()
+						lastSeen = cfg.Caches[0].Remark
+						mu.Unlock()
 					})
 					time.Sleep(150 * time.Millisecond) // let the watcher register
 					final := ""
@@ -467,6 +482,9 @@ func init() {
 						}
 					}
 					st.Execs++
+					if atomic.LoadInt32(&overlaps) > 0 {
+						c.Violation("file-watch-rapid-saves", "configurations-applied-concurrently", fmt.Sprintf("%d saves %v apart: the change callback was entered while an earlier call was still applying its configuration (an older configuration can finish last)", burst, gap), nil, map[string]interface{}{"burst": burst, "gap_ms": gap.Milliseconds()}, nil)
+					}
 					if !ok {
 						mu.Lock()
 						c.Violation("file-watch-rapid-saves", "final-save-never-applied", fmt.Sprintf("%d saves %v apart: the last change notification saw %q, the file holds %q", burst, gap, lastSeen, final), nil, map[string]interface{}{"burst": burst, "gap_ms": gap.Milliseconds()}, nil)
